@@ -2,6 +2,7 @@ SPECIFICATION MCSpec
 CONSTANTS
   Cases = {}
   W64 = 16777216
+  SplitFee = TRUE
   W32 = 0
   BW = 1000
   Bases = {0}
